@@ -48,15 +48,15 @@ def dime_safe(g):
     return cyclomatic == len(rings)
 
 
-def gen_molecule(rng, max_heavy=12, p_arom=0.3, p_ring=0.25, charged=True, hetero=True, triple=True, lowest_valence=False, p_fused=0.0, p_thio=0.0, p_het5=0.0):
+def gen_molecule(rng, max_heavy=12, p_arom=0.3, p_ring=0.25, charged=True, hetero=True, triple=True, lowest_valence=False, p_fused=0.0, p_thio=0.0, p_het5=0.0, p_lower5=0.0):
     for _ in range(200):
-        g = _gen_once(rng, max_heavy, p_arom, p_ring, charged, hetero, triple, lowest_valence, p_fused, p_thio, p_het5)
+        g = _gen_once(rng, max_heavy, p_arom, p_ring, charged, hetero, triple, lowest_valence, p_fused, p_thio, p_het5, p_lower5)
         if g is not None and dime_safe(g):
             return g
     raise RuntimeError('molecule generator failed')
 
 
-def _gen_once(rng, max_heavy, p_arom, p_ring, charged, hetero, triple, lowest_valence=False, p_fused=0.0, p_thio=0.0, p_het5=0.0):
+def _gen_once(rng, max_heavy, p_arom, p_ring, charged, hetero, triple, lowest_valence=False, p_fused=0.0, p_thio=0.0, p_het5=0.0, p_lower5=0.0):
     g = nx.Graph()
     nring = [0]
 
@@ -116,6 +116,7 @@ def _gen_once(rng, max_heavy, p_arom, p_ring, charged, hetero, triple, lowest_va
         if anchor is not None:
             att = [n for n in ring if free(g, n) >= 1]
             g.add_edge(anchor, rng.choice(att), order=1)
+        g.graph.setdefault('het5', []).append(ring)
 
     target = rng.randint(1, max_heavy)
     if p_het5 and rng.random() < p_het5 and target >= 5:
@@ -172,6 +173,15 @@ def _gen_once(rng, max_heavy, p_arom, p_ring, charged, hetero, triple, lowest_va
         if h is None:
             return None
         d['hcount'] = h
+    for ring in g.graph.get('het5', []):
+        # pyrrole / imidazole rings with a free N-H may also be WRITTEN in lower case (c1cc[nH]c1): the library accepts that
+        # spelling and turns it into the same Kekule structure (the ground truth keeps single and double bonds)
+        x = ring[0]
+        if g.nodes[x]['element'] == 'N' and g.nodes[x]['hcount'] == 1 and rng.random() < p_lower5:
+            for n in ring:
+                g.nodes[n]['lower'] = True
+            for a, b in zip(ring, ring[1:] + ring[:1]):
+                g.edges[a, b]['lower'] = True
     return g
 
 
@@ -280,7 +290,7 @@ def make_cuts(rng, g, part, kinds=('$', '><'), labels=None):
             lab = next(labels)
             kind = rng.choice(kinds)
             o = d['order']
-            oo = 1 if o == 1.5 else int(o)
+            oo = 1 if (o == 1.5 or d.get('lower')) else int(o)
             if kind == '$':
                 ka = kb = '$'
             else:
@@ -303,8 +313,10 @@ DESC_SYM = {0: '.', 1: '', 2: '=', 3: '#', 4: '$', 1.5: ':'}
 
 
 def atom_text(d, hcount, bracket=False):
-    el, ch, ar = d['element'], d['charge'], d.get('aromatic', False)
+    el, ch, ar = d['element'], d['charge'], d.get('aromatic', False) or d.get('lower', False)
     name = el.lower() if ar else el
+    if d.get('lower') and el == 'N' and d.get('hcount') == 1:
+        return '[nH]'
     if ch == 0 and not bracket:
         return name
     h = '' if hcount == 0 else ('H' if hcount == 1 else 'H%d' % hcount)
@@ -314,7 +326,10 @@ def atom_text(d, hcount, bracket=False):
 
 def bond_sym(g, a, b, rng=None, explicit_single=0.0):
     o = g.edges[a, b]['order']
-    if o == 1 and g.nodes[a].get('aromatic') and g.nodes[b].get('aromatic'):
+    if g.edges[a, b].get('lower'):
+        return ''
+    low = lambda n: g.nodes[n].get('aromatic') or g.nodes[n].get('lower')
+    if o == 1 and low(a) and low(b):
         return '-'
     if o == 1 and rng is not None and rng.random() < explicit_single:
         return '-'
@@ -630,6 +645,12 @@ def build_case_shared(rng, g, part, p_share=0.5, kinds=('$', '><'), render_opts=
             g.add_edge(a, clone, order=g.edges[a, b]['order'])
             done_edges.add(frozenset((a, b)))
             g.remove_edge(a, b)
+        # bonds of the shared atom to THIRD fragments may be written on either of its two copies
+        for c in list(g[b]):
+            if part[c] not in (P, part[b]) and origin[c] == c and rng.random() < 0.4:
+                g.add_edge(c, clone, **dict(g.edges[c, b]))
+                g.remove_edge(c, b)
+                moved_to_clone = True
         lab = next(labels)
         desc.setdefault(clone, []).append(('!', lab, 1))
         desc.setdefault(b, []).append(('!', lab, 1))
@@ -642,7 +663,7 @@ def build_case_shared(rng, g, part, p_share=0.5, kinds=('$', '><'), render_opts=
             lab = next(labels)
             kind = rng.choice(kinds)
             o = d['order']
-            oo = 1 if o == 1.5 else int(o)
+            oo = 1 if (o == 1.5 or d.get('lower')) else int(o)
             if kind == '$':
                 ka = kb = '$'
             else:
